@@ -118,9 +118,9 @@ Proof.
       unfold on_unwind, check_index, get_len, get_cap, dbg_assert, bind, ret, panic, cap.
       assert (Hltb : (len (self w) <? length (slots (self w))) = false) by (apply Nat.ltb_ge; exact Hge).
       repeat (cbv beta iota; simp_w; rewrite ?Hs, ?Hltb, ?Hdb; cbn [negb andb]).
-      destruct (unwind_pair E (k, v) w'); reflexivity.
+      destruct (unwind_args E k v w'); reflexivity.
   - (* a comparison panicked *)
-    rewrite HL. destruct (unwind_pair E (k, v) w'); reflexivity.
+    rewrite HL. destruct (unwind_args E k v w'); reflexivity.
   - destruct HL.
 Qed.
 
